@@ -4,5 +4,5 @@ CONSTANTS
   MaxLen = 7
   WithNamed = TRUE
   KeepRawUnitWhenValueUnchanged = FALSE
-INVARIANTS TypeOK DeclEqOp Idempotent Passthrough ChangedIffRewritten RewrStartsAgree OneNamePerMetric StoredIsTidied OrigKeptIffChanged MetadataEitherSpelling FilterEitherSpelling
+INVARIANTS AllProperties
 CHECK_DEADLOCK FALSE
